@@ -136,7 +136,13 @@ class Number(Element):
         )
 
     def set_value_from_message(self, msg):
-        self.set_value(values.str_to_num(msg.value, self._definition.format))
+        value = values.str_to_num(msg.value, self._definition.format)
+        try:
+            # a value the property's format cannot render could never be published
+            values.num_to_str(value, self._definition.format)
+        except ArithmeticError:
+            raise ValueError("Number out of range for format %s" % self._definition.format)
+        self.set_value(value)
 
 
 class Text(Element):
